@@ -23,10 +23,10 @@ META = {
             "Non-trivial = every history; distinct = hash of the "
             "operation list.",
     "reach": {"oracle_comparisons": 200000, "nonempty_expectations": 20000,
-              "check_points": 2000, "edit_then_lookup:blk_off": 200,
+              "check_points": 600, "edit_then_lookup:blk_off": 200,
               "edit_then_lookup:blk_size": 200,
               "edit_then_lookup:iv_addr": 200, "edit_then_lookup:mv_blk": 200,
-              "regime:far": 20, "save_load_continue": 5},
+              "regime:far": 15, "save_load_continue": 3},
     "assumptions": [
         "queries are ints or ranges with step >= 1; node coordinates >= 0",
         "'on' with step > 1 and anything outside an interval's declared "
